@@ -91,7 +91,7 @@ def op_wire(o):
         return {"op": "ini", "ini": {"text": lib.l1(o["text"]), "asdefaults": o.get("asdefaults", False)}}
     if o["op"] == "writeini":
         return {"op": "writeini", "iniopts": o["iniopts"]}
-    if o["op"] in ("help", "man", "inspect"):
+    if o["op"] in ("help", "man", "inspect", "observe"):
         return {"op": o["op"]}
     if o["op"] == "complete":
         return {"op": "complete", "args": [lib.l1(x) for x in o["args"]]}
@@ -189,6 +189,7 @@ def op_coq(o):
     if o["op"] == "man": return "OpMan"
     if o["op"] == "complete": return "(OpComplete %s)" % cl([cs(x) for x in o["args"]])
     if o["op"] == "attach": return "(OpAttach %s)" % attach_coq(o["attach"])
+    if o["op"] == "observe": return "OpObserve"
     raise ValueError(o)
 
 
@@ -373,6 +374,7 @@ def s_op(o):
     if o["op"] == "inspect": return b"N"
     if o["op"] == "complete": return b"C" + s_list([s_str(x) for x in o["args"]])
     if o["op"] == "attach": return b"A" + s_attach(o["attach"])
+    if o["op"] == "observe": return b"B"
     raise ValueError(o)
 
 
